@@ -1,4 +1,4 @@
-import Lt.RH
+import RedisGoModel.Raft.RH
 open RS
 def roleStr : Role → String | .follower => "F" | .candidate => "C" | .leader => "L"
 def show3 (ns : Fin 3 → Node1 3) : String :=
